@@ -311,7 +311,64 @@ theorem generated_single_isotope (env : NsfEnv α) (z a : Nat)
     = (Nsf.loadRows env PtGen.nsfTables).getRec ((ptrs PtGen.nsfRows).isoId z a)
   rw [this.1]
 
+/-- the atom `(z, a)` reports the record its pointer names -/
+theorem atomRec_eq_getRec (env : NsfEnv α) (t : NsfTables) (z a : Nat) :
+    atomRec (Nsf.loadRows env t) z a
+      = (Nsf.loadRows env t).getRec (if a = 0 then (ptrs t.rows).elId z else (ptrs t.rows).isoId z a) := by
+  unfold atomRec NsfState.elNeutron NsfState.isoNeutron
+  split
+  · rw [loadRows_elId]
+  · rw [loadRows_isoId]
+
+/-- **all 16 rows of the imaginary table**: the element or isotope a row names reports that
+    row's b_c_i, b+_i, b−_i -/
+theorem generated_imaginary (env : NsfEnv α) (x : NsfIRow) (hx : x ∈ PtGen.nsfIRows) :
+    (atomRec (Nsf.loadRows env PtGen.nsfTables) x.z x.a).imag = (x.b_c_i.val, x.bp_i.val, x.bm_i.val) := by
+  obtain ⟨pre, post, hsplit, hlast⟩ :=
+    split_of_mem_nodup (itarget (ptrs PtGen.nsfRows)) PtGen.nsfIRows imag_targets.2 x hx
+  have := imag_of_row env PtGen.nsfTables pre post x hsplit hlast
+  rw [atomRec_eq_getRec]
+  exact this
+
+/-- **all 14 energy-dependent tables**: the atom a table names carries that table, converted
+    from eV to Å and reversed -/
+theorem generated_energy_table (env : NsfEnv α) (henv : env.zOf = zOf) (e : EDTable) (he : e ∈ PtGen.edTables)
+    (z : Nat) (hz : zOf e.sym = some z) :
+    (atomRec (Nsf.loadRows env PtGen.nsfTables) z e.a).table = some (edTable env.ef e.rows) := by
+  obtain ⟨pre, post, hsplit⟩ := List.append_of_mem he
+  have htgt : etarget zOf (ptrs PtGen.nsfRows) e
+      = some (if e.a = 0 then (ptrs PtGen.nsfRows).elId z else (ptrs PtGen.nsfRows).isoId z e.a) := by
+    unfold etarget; rw [hz]; rfl
+  have hall := ed_targets.1
+  have hnd := ed_targets.2
+  rw [atomRec_eq_getRec]
+  apply ed_table_of_entry env PtGen.nsfTables pre post e _ hsplit (by rw [henv]; exact htgt)
+  · intro y hy hy'
+    rw [henv] at hy'
+    have hsplit' : PtGen.edTables = pre ++ e :: post := hsplit
+    rw [hsplit', List.map_append, List.map_cons] at hnd
+    have := (List.nodup_append.mp hnd).2.1
+    rw [List.nodup_cons] at this
+    exact this.1 (List.mem_map.mpr ⟨y, hy, hy'.trans htgt.symm⟩)
+  · have := List.all_eq_true.mp hall _ (List.mem_map.mpr ⟨e, he, rfl⟩)
+    rw [htgt] at this
+    simp only [Bool.and_eq_true, bne_iff_ne, ne_eq] at this
+    exact this.2
+
 end generated
+
+/-- **at every tabulated energy every energy-dependent atom of the embedded table returns
+    exactly the tabulated complex scattering length** (ℝ; `ENERGY_FACTOR > 0`) -/
+theorem generated_nodes_return_tabulated (env : NsfEnv ℝ) (henv : env.zOf = zOf) (hef : 0 < env.ef)
+    (e : EDTable) (he : e ∈ PtGen.edTables) (z : Nat) (hz : zOf e.sym = some z)
+    (r : Dec × Dec × Dec) (hr : r ∈ e.rows) :
+    (atomRec (Nsf.loadRows env PtGen.nsfTables) z e.a).bcAt
+        (neutronWavelength env.ef (r.1.toNum * ((1000 : Nat) : ℝ)))
+      = some ((r.2.1.toNum : ℝ), (r.2.2.toNum : ℝ)) := by
+  unfold NRec.bcAt
+  rw [generated_energy_table env henv e he z hz]
+  have hinc := List.all_eq_true.mp energies_increasing e he
+  exact ed_node_returns_tabulated env.ef hef e.rows hinc r hr
 
 /-! ## Part 4 — finding D19: an element with several isotope rows and no row of its own
 
